@@ -192,3 +192,76 @@ Proof.
     destruct (Layer.minP o), (Layer.maxP o); reflexivity.
 Qed.
 Print Assumptions C11_layer_vars.
+
+(* ---------- the option dictionaries (options omitted entirely / empty / partial) -------------
+   Render/Options.v models Timeline.__init__'s merge (timeline.py:141-160) and every subscript
+   the axis set-up, the renderers and the engine perform on the merged dict; KeyError and
+   TypeError are explicit results.  Tied to the code by API 720/721 (harness/props/c11opts.py). *)
+From Coq Require Import String.
+From Labella Require Import Layout.ForceState Render.Options Render.OptionsProofs.
+Open Scope string_scope.
+
+(* options=None is options={} *)
+Theorem C11_options_none : tl_merge None = tl_merge (Some []).
+Proof. exact tl_merge_none. Qed.
+Print Assumptions C11_options_none.
+
+(* what the merge produces, for EVERY user dict (any keys, documented or not, any values):
+   the user's value where given and the default otherwise; the caller's scale object or a
+   fresh TimeScale of the timeline's own; latex merged key by key; labella a COPY of the
+   caller's engine options with the direction written in *)
+Theorem C11_options_merge : forall u, user_wf u -> exists d, tl_merge (Some u) = OOk d /\ merged_spec u d.
+Proof. exact tl_merge_spec. Qed.
+Print Assumptions C11_options_merge.
+
+(* hence no documented key is ever missing afterwards, whatever the user omitted *)
+Theorem C11_options_all_keys : forall u d, merged_spec u d ->
+  (forall k, In k top_keys -> dget d k <> None) /\
+  (exists lm, dget d K_latex = Some (VDict lm) /\ forall j, In j latex_keys -> dget lm j <> None) /\
+  (exists l, dget d K_labella = Some (VDict l) /\ dget l E_direction = Some (user_direction u)).
+Proof. exact merged_has_all_keys. Qed.
+Print Assumptions C11_options_all_keys.
+
+(* and every subscript performed on the merged options succeeds when the values that ARE
+   given have the documented kinds (user_ok): no KeyError, no TypeError *)
+Theorem C11_options_total : forall u, user_ok u -> exists r, resolve (Some u) = OOk r.
+Proof. exact resolve_total. Qed.
+Print Assumptions C11_options_total.
+
+Theorem C11_options_omitted_total : exists r, resolve None = OOk r.
+Proof. exact resolve_none_total. Qed.
+Print Assumptions C11_options_omitted_total.
+
+Theorem C11_options_own_scale : forall u r, resolve (Some u) = OOk r ->
+  r_own_scale r = match dget u K_scale with None => true | Some _ => false end.
+Proof. exact resolve_own_scale. Qed.
+Print Assumptions C11_options_own_scale.
+
+(* non-vacuity: a partial dict (direction, a partial latex dict, an engine dict with one key, a
+   LinearScale, an undocumented key) meets user_ok and resolves to the expected values; a
+   partial margin dict raises KeyError, a non-dict latex value TypeError *)
+Definition ex_user : dict :=
+  [ (K_direction, VStr (s2n "up")); (K_latex, VDict [(L_tickCross, VBool true)]);
+    (K_labella, VDict [(E_maxPos, VNum 340)]); (K_scale, VScale true); (123%N, VNum 5);
+    (K_dotColor, VStrs [s2n "#111"; s2n "#abc"]) ].
+
+Example C11_ex_options :
+  user_ok ex_user /\
+  exists r, resolve (Some ex_user) = OOk r /\
+    o_dir (r_opts r) = Up /\ o_cross (r_opts r) = true /\ o_ticks (r_opts r) = true /\
+    Qeq_bool (o_iw (r_opts r)) 400 = true /\ Qeq_bool (o_ml (r_opts r)) 20 = true /\
+    e_maxPos (r_engine r) = Some 340%Q /\ e_minPos (r_engine r) = Some 0%Q /\
+    r_linear r = true /\ r_own_scale r = false.
+Proof.
+  split.
+  - constructor; try exact I;
+      try (unfold given; cbn; first [exact I | eexists; reflexivity]).
+    + repeat split; cbn; repeat constructor; cbn; intuition discriminate.
+  - eexists. split; [vm_compute; reflexivity|]. vm_compute. repeat split.
+Qed.
+
+Example C11_ex_options_raise :
+  resolve (Some [(K_margin, VDict [(K_left, VNum 10)])]) = ORaise OKeyError /\
+  resolve (Some [(K_latex, VNum 5)]) = ORaise OTypeError /\
+  resolve (Some [(K_direction, VStr (s2n "north"))]) = ORaise OTypeError.
+Proof. vm_compute. repeat split. Qed.
